@@ -5,8 +5,8 @@ import re
 
 from . import templates as T
 
-STYLES = ["sa_select", "sa_legacy", "sa_core", "dj_qs", "dj_manager", "dj_custom_manager",
-          "dj_related_manager"]
+STYLES = ["sa_select", "sa_select_aliased", "sa_legacy", "sa_core", "dj_qs", "dj_manager",
+          "dj_custom_manager", "dj_related_manager"]
 # related managers the host may start from: root model -> (owner model, accessor, fk column)
 RELATED = {"Post": ("Author", "posts", "author_id"),
            "Comment": ("Post", "comments", "post_id")}
@@ -22,7 +22,7 @@ class Libs:
         import sqlalchemy as sa
         from sqlalchemy import event, select
         from sqlalchemy.dialects import sqlite
-        from sqlalchemy.orm import Session
+        from sqlalchemy.orm import Session, aliased, joinedload
         from sqlalchemy.pool import StaticPool
 
         from . import dj_models, sa_models
@@ -35,6 +35,8 @@ class Libs:
         self.select = select
         self.event = event
         self.Session = Session
+        self.aliased = aliased
+        self.joinedload = joinedload
         self.StaticPool = StaticPool
         self.sqlite_dialect = sqlite.dialect()
         self.sm = sa_models
@@ -129,6 +131,8 @@ class Builder:
         L = self.L
         if style == "sa_select":
             return L.select(L.sm.MODELS[root])
+        if style == "sa_select_aliased":
+            return L.select(L.aliased(L.sm.MODELS[root]))
         if style == "sa_legacy":
             sess = self.session if self.session is not None else L.Session()
             return sess.query(L.sm.MODELS[root])
@@ -145,6 +149,13 @@ class Builder:
             return getattr(L.dm.MODELS[owner](id=owner_id), accessor)
         raise ValueError(style)
 
+    def entity(self, style, root, obj, model=None):
+        """The entity host expressions are written against: the mapped class, or - for an
+        aliased root - the alias the query selects from."""
+        if style == "sa_select_aliased" and (model is None or model == root):
+            return obj.column_descriptions[0]["entity"]
+        return self.L.sm.MODELS[model or root]
+
     def where(self, style, root, obj, cond):
         L = self.L
         if is_dj(style):
@@ -152,7 +163,7 @@ class Builder:
                 return obj.exclude(**{cond["f"] + "__exact": cond["v"]})
             return obj.filter(**{cond["f"] + "__" + DJ_LOOKUP[cond["op"]]: cond["v"]})
         col = (L.sm.TABLES[root].c[cond["f"]] if style == "sa_core"
-               else getattr(L.sm.MODELS[root], cond["f"]))
+               else getattr(self.entity(style, root, obj), cond["f"]))
         expr = getattr(col, HOST_OPS[cond["op"]])(cond["v"])
         return obj.filter(expr) if style == "sa_legacy" else obj.where(expr)
 
@@ -160,10 +171,15 @@ class Builder:
         L = self.L
         if is_dj(style):
             return obj.select_related(j["path"])
-        owner = L.sm.MODELS[j["owner"]]
         fk, tgt = T.TO_ONE[j["owner"]][j["rel"]]
-        target = L.sm.MODELS[tgt]
         form = j["form"]
+        if form == "core_join":
+            ot, tt = L.sm.TABLES[j["owner"]], L.sm.TABLES[tgt]
+            return obj.join(tt, ot.c[fk] == tt.c.id)
+        owner = self.entity(style, root, obj, j["owner"])
+        target = L.sm.MODELS[tgt]
+        if form == "joinedload":
+            return obj.options(L.joinedload(getattr(owner, j["rel"])))
         if form == "rel":
             return obj.join(getattr(owner, j["rel"]))
         if form == "outer_rel":
@@ -181,7 +197,8 @@ class Builder:
         if style == "sa_core":
             c, pk = L.sm.TABLES[root].c[o["f"]], L.sm.TABLES[root].c.id
         else:
-            c, pk = getattr(L.sm.MODELS[root], o["f"]), L.sm.MODELS[root].id
+            ent = self.entity(style, root, obj)
+            c, pk = getattr(ent, o["f"]), ent.id
         return obj.order_by(c.desc() if o["dir"] == "desc" else c.asc(), pk)
 
     def annotate(self, style, root, obj):
@@ -205,6 +222,10 @@ class Builder:
             return self.order(style, root, obj, op["o"])
         if k == "annotate":
             return self.annotate(style, root, obj)
+        if k == "distinct":
+            return obj.distinct()
+        if k == "only":
+            return obj.only("id") if op.get("mode") == "only" else obj.defer(op["field"])
         if k == "apply":
             return self.apply(style, obj, T.render(op["t"]))
         raise ValueError(k)
@@ -252,7 +273,7 @@ class Builder:
             return [o.id for o in obj.all()], None
         if style == "sa_core":
             return [r[0] for r in session.execute(obj).all()], None
-        return [o.id for o in session.execute(obj).scalars().all()], None
+        return [o.id for o in session.execute(obj).scalars().unique().all()], None
 
 
 def count_joins(sql, table):
@@ -266,7 +287,7 @@ def model_rows(q, db):
     """Rows (dicts) the host query denotes on the reference database, in order."""
     rows = list(db[q.root])
     for j in q.joins:
-        if j["form"] in ("outer_rel", "select_related"):
+        if j["form"] in ("outer_rel", "select_related", "joinedload"):
             continue
         rows = [r for r in rows if _join_keeps(q.root, r, j, db)]
     for p in q.preds:
